@@ -16,6 +16,7 @@ import (
 //
 //	["call", <callee>, <args>]            x, err := f(args) / err = f(args) / f(args)
 //	["iferr", <calls in body>, <returns>] if err != nil { ...; return ... }
+//	["ifnil", <x>, <calls in body>, <returns>]  if x == nil { ...; return ... }
 //	["assign", <lhs>, <rhs>]              plain assignment
 //	["return", <results>]                 return statement
 //	["other", <kind>]                     anything else (kept so that nothing is silently dropped)
@@ -87,8 +88,17 @@ func c05Flatten(stmts []ast.Stmt) [][]string {
 			if x.Init != nil {
 				walk(x.Init)
 			}
-			if !c05IsErrCheck(x.Cond) || x.Else != nil {
+			kind := "iferr"
+			nilOf := ""
+			if b, ok := x.Cond.(*ast.BinaryExpr); ok && b.Op == token.EQL && exprString(b.Y) == "nil" {
+				// `if batch == nil { ...; return ... }` guard
+				kind, nilOf = "ifnil", exprString(b.X)
+			} else if !c05IsErrCheck(x.Cond) {
 				prog = append(prog, []string{"other", "if " + exprString(x.Cond)})
+				return
+			}
+			if x.Else != nil {
+				prog = append(prog, []string{"other", "if-else " + exprString(x.Cond)})
 				return
 			}
 			var calls []string
@@ -106,11 +116,28 @@ func c05Flatten(stmts []ast.Stmt) [][]string {
 						}
 					}
 					ret = c05Join(y.Results, c05ExprSummary)
+				case *ast.AssignStmt:
+					// `err := fmt.Errorf(...)` builds an error value, no effect
+					if len(y.Rhs) == 1 {
+						if c, ok := y.Rhs[0].(*ast.CallExpr); ok {
+							f := exprString(c.Fun)
+							if strings.HasPrefix(f, "fmt.") || strings.HasPrefix(f, "errors.") {
+								continue
+							}
+							calls = append(calls, f)
+							continue
+						}
+					}
+					calls = append(calls, "<stmt>")
 				default:
 					calls = append(calls, "<stmt>")
 				}
 			}
-			prog = append(prog, []string{"iferr", strings.Join(calls, ","), ret})
+			if kind == "ifnil" {
+				prog = append(prog, []string{"ifnil", nilOf, strings.Join(calls, ","), ret})
+			} else {
+				prog = append(prog, []string{"iferr", strings.Join(calls, ","), ret})
+			}
 		case *ast.ReturnStmt:
 			prog = append(prog, []string{"return", c05Join(x.Results, c05ExprSummary)})
 		case *ast.DeclStmt:
